@@ -109,3 +109,48 @@ parameter `clock` (at most one reading per call).""",
         {"container": "RateLimiter for LeakyBucketRateLimiter", "name": "bump", "theorem": "C15.generated_leaky_bump_eq_model"},
     ],
 })
+
+# ---- C07/C02: admission word arithmetic, ActorStatus --------------------------------------
+AREAS.append({
+    "area": "Admission",
+    "properties": ["C07"],
+    "file": "ractor/src/actor/actor_properties.rs",
+    "error_type": "MessagingErr",
+    "doc": """
+Atomics: a method that works on `self.message_admission: AtomicUsize` is translated as a function
+of the word it observes (the field of `self`), `fetch_or`/`fetch_sub` as the new word plus the old
+value; a compare-exchange retry loop as ONE iteration (`Rust.CasStep`). The interleaving of these
+atomic steps is the hand-written small-step model (`Model/Admission.lean`); what is tied here is
+the word arithmetic of each step. `MessageAdmission(self)` (the ticket) is `()`, the outcome of
+`self.message.send(MuxedMessage::Drain)` is the parameter `enqueue`. `ActorProperties` keeps only
+`message_admission`; `ActorCell` is restated as its status.""",
+    "foreign_after_source": True,
+    "fn_params": "(enqueue : Except MessagingErr Unit)",
+    "fn_args": "enqueue",
+    "foreign_rust": """
+        enum MessagingErr { SendErr(()), ChannelClosed, InvalidActorType }
+        struct ActorCell { status: ActorStatus }
+    """,
+    "types": {"MessageAdmission": "Unit"},
+    "source_types": [{"name": "ActorStatus", "file": "ractor/src/actor/actor_cell.rs"},
+                     {"name": "ActorProperties", "fields": ["message_admission"]}],
+    "consts": [{"name": "MESSAGE_ADMISSION_CLOSED"}, {"name": "DRAIN_MARKER_SENT"}, {"name": "MESSAGE_ADMISSION_COUNT_MASK"}],
+    "calls": {"MessageAdmission": ("()", "MessageAdmission")},
+    "nondet": {"self.message.send(MuxedMessage::Drain)": ("enqueue", "Result<()>")},
+    "methods": [{"name": "get_status", "on": "ActorCell", "lean": "{0}.status", "ty": "ActorStatus"}],
+    "fns": [
+        {"container": "ActorProperties", "name": "try_admit_message", "atomic_self": False,
+         "theorem": "C07.generated_try_admit_eq_model"},
+        {"container": "ActorProperties", "name": "close_message_admission", "atomic_self": True,
+         "theorem": "C07.generated_close_admission_eq_model"},
+        {"container": "ActorProperties", "name": "send_drain_marker", "theorem": "C07.generated_send_drain_marker_eq_model"},
+        {"container": "Drop for MessageAdmission", "name": "drop", "lean": "MessageAdmission.drop", "self_ty": "ActorProperties",
+         "self_is_tuple_of_self": True, "mode": "tail_if_condition", "theorem": "C07.generated_ticket_release_eq_model"},
+        {"container": "ActorProperties", "name": "drain", "lean": "ActorProperties.drain_status_update", "mode": "closure_arg",
+         "method": "fetch_update", "closure_params": ["u8"], "closure_ret": "Option<u8>",
+         "theorem": "C07.generated_drain_status_update_eq_model"},
+        {"container": "ActorCell", "name": "terminate", "file": "ractor/src/actor/actor_cell.rs", "lean": "ActorCell.terminate_kills",
+         "mode": "if_condition", "index": 0, "bind": [["actor", "ActorCell"]],
+         "properties": ["C05"], "theorem": "C05.generated_terminate_kill_condition_eq_model"},
+    ],
+})
